@@ -229,6 +229,9 @@ impl Backend {
 
         if doc_state.dict != dict {
             doc_state.dict = dict.clone();
+            // The identifier dictionary was merged into the dictionary that is being replaced:
+            // forget it, so that it is merged into the new one below.
+            doc_state.ident_dict = Default::default();
             info!("Constructing new linter because of modified dictionary.");
             doc_state.linter =
                 LintGroup::new_curated(dict.clone(), dialect).with_lint_config(lint_config.clone());
